@@ -33,7 +33,7 @@ CHECKS = {
     "C01": {"parts": [FLOW, preempt(V1_POINTS + ["pkg/lifecycle/stream/fanout.go"] + V2_WORKER_POINTS), TALLY]},
     "C02": {"parts": [FLOW, preempt(["pkg/connector/source.go", "pkg/connector/persister.go"])]},
     "C03": {"parts": [FLOW]},
-    "C04": {"parts": [FLOW, preempt(V1_POINTS + ["pkg/lifecycle/stream/fanout.go"] + V2_WORKER_POINTS), TALLY]},
+    "C04": {"parts": [FLOW, preempt(V1_POINTS + ["pkg/lifecycle/stream/fanout.go", "pkg/connector/source.go"] + V2_WORKER_POINTS), TALLY]},
     "C06": {"parts": [FLOW, preempt(V1_POINTS + V2_POINTS + ["pkg/connector/source.go", "pkg/connector/persister.go"])]},
     "C07": {"rule": "window arithmetic: every window size and threshold 0..5 (0..6 thorough) x every outcome sequence up to length 10/9 (14/12) x every batch partition (v2) on the real dlqWindow of both engines and, through the exported handlers, sizes 0..3 (0..5) x length 7 (10) against one reference; routing: schedules of the scripted plugins on the real full stack",
             "parts": [FLOW, preempt(["pkg/lifecycle/dlq.go", "pkg/lifecycle/stream/dlq.go", "pkg/lifecycle-poc/funnel/dlq.go"]),
